@@ -3,7 +3,8 @@
 (* trace.ndjson holds executions of the REAL langlint binary, one "run" per   *)
 (* process, recorded with strace (file-system calls on the scratch directory, *)
 (* failed calls removed, names relative to the directory):                    *)
-(*   Init  : run, dir (list of [n, c]) the directory the process started in,  *)
+(*   Init  : run, dir (list of [n, k, c]: name, "file"/"link", content/target) *)
+(*           the directory tree the process started in,                       *)
 (*           path/orig/new/keep, later (a crashed run preceded it),           *)
 (*           sim (enumerate a crash before every operation of this run)       *)
 (*   open/write/close/chmod/rename/link/unlink/truncate/ftruncate/fsync       *)
@@ -17,40 +18,45 @@
 (*   - on the model directory before every operation of a sim run (= the      *)
 (*     process stopping between any two file-system operations),              *)
 (*   - on the real directory of every Crash event,                            *)
-(*   - Clean on the real directory at the successful Exit of a later run.     *)
+(*   - Clean on the real directory at the successful Exit of a later run,     *)
+(*   - the content clause again on the real directory at the Exit of every    *)
+(*     later run that started from a crash-safe state (the path must STILL    *)
+(*     hold the complete original or the complete formatted content of the    *)
+(*     original once a later run has happened, whatever that run reported).   *)
 (* Failing cases are accumulated (not stop-at-first) with an abstract key;    *)
 (* the crash states of sim runs are printed so that the driver can put the    *)
 (* real tool into each of them for the "later run".                           *)
 EXTENDS FsModel, Json
 
-VARIABLES l, dir, fds, cur, lastop, nops, bad, mism, cstates
+VARIABLES l, dir, fds, cur, lastop, nops, startok, bad, mism, cstates
 
-tvars == <<l, dir, fds, cur, lastop, nops, bad, mism, cstates>>
+tvars == <<l, dir, fds, cur, lastop, nops, startok, bad, mism, cstates>>
 
 Log == ndJsonDeserialize("trace.ndjson")
 N   == Len(Log)
 Ev  == Log[l]
 
 NoFds == [x \in {} |-> ""]
-ListDir(s)   == [n \in {s[i].n : i \in 1..Len(s)} |-> s[CHOOSE i \in 1..Len(s) : s[i].n = n].c]
-DirSet(d)    == {[n |-> x, c |-> d[x]] : x \in DOMAIN d}
+ListDir(s)   == [n \in {s[i].n : i \in 1..Len(s)} |-> LET e == s[CHOOSE i \in 1..Len(s) : s[i].n = n] IN [k |-> e.k, c |-> e.c]]
+DirSet(d)    == {[n |-> x, k |-> d[x].k, c |-> d[x].c] : x \in DOMAIN d}
 SeqSet(s)    == {s[i] : i \in 1..Len(s)}
 
-NoCur == [run |-> -1, path |-> "", orig |-> "", new |-> "", keep |-> {}, later |-> FALSE, sim |-> FALSE]
+NoCur == [run |-> -1, path |-> "", orig |-> "", new |-> "", keep |-> {}, later |-> FALSE, sim |-> FALSE, kind |-> "file"]
 
 TInit == /\ TLCSet(42, 0)
          /\ l = 1 /\ dir = [x \in {} |-> ""] /\ fds = NoFds /\ cur = NoCur
-         /\ lastop = "start" /\ nops = 0 /\ bad = {} /\ mism = {} /\ cstates = {}
+         /\ lastop = "start" /\ nops = 0 /\ startok = FALSE /\ bad = {} /\ mism = {} /\ cstates = {}
 
 (* ---- abstract identity of a failing case ---- *)
-CrashKey(d, after) ==
-  "crashsafe/" \o (IF ~Has(d, cur.path) THEN "path-absent"
-                   ELSE IF d[cur.path] = "" THEN "path-empty" ELSE "path-partial-or-other")
-               \o "/after-" \o after
+PathState(d) == (IF ~Readable(d, cur.path) THEN "path-absent"
+                 ELSE IF Read(d, cur.path) = "" THEN "path-empty" ELSE "path-partial-or-other")
+                \o (IF cur.kind = "file" THEN "" ELSE "/" \o cur.kind)
+CrashKeyTail(d, after) == PathState(d) \o "/after-" \o after
+CrashKey(d, after) == "crashsafe/" \o CrashKeyTail(d, after)
 CleanKey(d) ==
   LET left == {x \in DOMAIN d : x \notin cur.keep}
-      bk   == \E x \in left : d[x] = cur.orig
-      tp   == \E x \in left : d[x] # cur.orig
+      bk   == \E x \in left : d[x] = File(cur.orig)
+      tp   == \E x \in left : d[x] # File(cur.orig)
   IN "clean/leftover-" \o (IF bk THEN "backup" ELSE "") \o (IF tp THEN "temp" ELSE "")
      \o "/" \o (IF nops = 0 THEN "later-run-had-nothing-to-rewrite" ELSE "later-run-rewrote")
 
@@ -59,14 +65,13 @@ CrashOK(d) == CrashSafeDir(d, cur.path, cur.orig, cur.new)
 TStart == /\ l <= N /\ Ev.ev = "Init"
           /\ dir' = ListDir(Ev.dir) /\ fds' = NoFds
           /\ cur' = [run |-> Ev.run, path |-> Ev.path, orig |-> Ev.orig, new |-> Ev.new,
-                     keep |-> SeqSet(Ev.keep), later |-> Ev.later, sim |-> Ev.sim]
+                     keep |-> SeqSet(Ev.keep), later |-> Ev.later, sim |-> Ev.sim, kind |-> Ev.kind]
+          /\ startok' = CrashSafeDir(ListDir(Ev.dir), Ev.path, Ev.orig, Ev.new)
           /\ lastop' = "start" /\ nops' = 0
           /\ UNCHANGED <<bad, mism, cstates>>
           /\ l' = l + 1
 
-(* a mutating operation of the real process; in a sim run the state BEFORE it is a crash state *)
-Mutating(e) == e.ev \in {"open", "write", "rename", "link", "unlink", "truncate", "ftruncate"}
-
+(* an operation of the real process; in a sim run the state BEFORE it is a crash state *)
 TOp == /\ l <= N /\ Ev.ev \in OpNames /\ Ev.run = cur.run
        /\ dir' = ApplyDir(dir, fds, Ev)
        /\ fds' = ApplyFds(dir, fds, Ev)
@@ -78,7 +83,7 @@ TOp == /\ l <= N /\ Ev.ev \in OpNames /\ Ev.run = cur.run
                /\ bad' = IF CrashOK(dir) THEN bad
                          ELSE bad \cup {[run |-> cur.run, idx |-> l, kind |-> "simulated-crash", key |-> CrashKey(dir, lastop)]}
           ELSE UNCHANGED <<cstates, bad>>
-       /\ UNCHANGED <<cur, mism>>
+       /\ UNCHANGED <<cur, mism, startok>>
        /\ l' = l + 1
 
 TCrash == /\ l <= N /\ Ev.ev = "Crash" /\ Ev.run = cur.run
@@ -86,17 +91,21 @@ TCrash == /\ l <= N /\ Ev.ev = "Crash" /\ Ev.run = cur.run
              /\ mism' = IF real = dir THEN mism ELSE mism \cup {[run |-> cur.run, idx |-> l, model |-> DirSet(dir), real |-> DirSet(real)]}
              /\ bad' = IF CrashOK(real) THEN bad
                        ELSE bad \cup {[run |-> cur.run, idx |-> l, kind |-> "real-crash", key |-> CrashKey(real, lastop)]}
-          /\ UNCHANGED <<dir, fds, cur, lastop, nops, cstates>>
+          /\ UNCHANGED <<dir, fds, cur, lastop, nops, startok, cstates>>
           /\ l' = l + 1
 
 TExit == /\ l <= N /\ Ev.ev = "Exit" /\ Ev.run = cur.run
          /\ LET real == ListDir(Ev.dir) IN
             /\ mism' = IF real = dir THEN mism ELSE mism \cup {[run |-> cur.run, idx |-> l, model |-> DirSet(dir), real |-> DirSet(real)]}
-            /\ bad' = IF (cur.later /\ Ev.ok) => CleanDir(real, cur.keep) THEN bad
-                      ELSE bad \cup {[run |-> cur.run, idx |-> l, kind |-> "later-run", key |-> CleanKey(real)]}
+            /\ bad' = bad
+                 \cup (IF (cur.later /\ Ev.ok) => CleanDir(real, cur.keep) THEN {}
+                       ELSE {[run |-> cur.run, idx |-> l, kind |-> "later-run", key |-> CleanKey(real)]})
+                 \cup (IF (cur.later /\ startok) => CrashOK(real) THEN {}
+                       ELSE {[run |-> cur.run, idx |-> l, kind |-> "later-run-content",
+                              key |-> "content-lost-by-later-run/" \o CrashKeyTail(real, lastop)]})
             (* the state after the last operation is a crash state too *)
             /\ cstates' = IF cur.sim THEN cstates \cup {[run |-> cur.run, idx |-> l, after |-> lastop, dir |-> DirSet(dir)]} ELSE cstates
-         /\ UNCHANGED <<dir, fds, cur, lastop, nops>>
+         /\ UNCHANGED <<dir, fds, cur, lastop, nops, startok>>
          /\ l' = l + 1
 
 TNext == TStart \/ TOp \/ TCrash \/ TExit
